@@ -252,7 +252,10 @@ pub enum PAct {
     Cc(u8, u8),
     /// Control Change judged by the oracle but not expanded (concretisation sweep)
     CcProbe(u8, u8),
-    /// a message that must be transparent (index into `noncontrib`)
+    /// a non-contributing message, EXPANDED like any other input (index into `others`): "whatever
+    /// it has been fed before" includes such traffic
+    Other(u32),
+    /// a message that must be transparent (index into `noncontrib`), probe only
     Transparent(u32),
     Reset,
     /// reset a copy and compare with a new scanner
@@ -265,6 +268,7 @@ pub struct PlainSys<O: PlainOracle> {
     pub ch: u8,
     pub alphabet: Vec<(u8, u8)>,
     pub probes: Vec<(u8, u8)>,
+    pub others: Vec<(u8, u8, u8)>,
     pub noncontrib: Vec<(u8, u8, u8)>,
     pub report: Report,
     pub with_reset: bool,
@@ -291,6 +295,7 @@ impl<O: PlainOracle> PlainSys<O> {
             ch,
             alphabet: Vec::new(),
             probes: Vec::new(),
+            others: Vec::new(),
             noncontrib: Vec::new(),
             report,
             with_reset: true,
@@ -298,8 +303,8 @@ impl<O: PlainOracle> PlainSys<O> {
         }
     }
 
-    fn vio(&self, rule: &str, cls: &str, detail: String) -> Violation {
-        Violation::new(rule, format!("{}/{}/{}/{}", self.pid, <O::Sc as Scanner>::NAME, rule, cls), detail)
+    fn vio(&self, rule: &str, cls: &str, detail: impl FnOnce() -> String) -> Violation {
+        Violation::lazy(rule, format!("{}/{}/{}/{}", self.pid, <O::Sc as Scanner>::NAME, rule, cls), detail)
     }
 
     fn do_cc(&self, s: &PState<O>, ctrl: u8, val: u8, expand: bool) -> Step<PState<O>> {
@@ -314,15 +319,15 @@ impl<O: PlainOracle> PlainSys<O> {
         if self.report.oracle {
             let cls = O::class_of_ctrl(ctrl);
             if out[1].is_some() {
-                v.push(self.vio("second-slot", cls, format!("feed(CC ch{} #{} ={}) returned a second message {:?}", self.ch, ctrl, val, out[1])));
+                v.push(self.vio("second-slot", cls, || format!("feed(CC ch{} #{} ={}) returned a second message {:?}", self.ch, ctrl, val, out[1])));
             }
             match (&out[0], &want) {
                 (None, None) => {}
-                (Some(g), None) => v.push(self.vio("unjustified-report", cls, format!("feed(CC ch{} #{} ={}) reported {:?}; the statement justifies no report here (model {:?})", self.ch, ctrl, val, g, s.m))),
-                (None, Some(w)) => v.push(self.vio("missing-report", cls, format!("feed(CC ch{} #{} ={}) reported nothing; expected {:?} (model {:?})", self.ch, ctrl, val, w, s.m))),
+                (Some(g), None) => v.push(self.vio("unjustified-report", cls, || format!("feed(CC ch{} #{} ={}) reported {:?}; the statement justifies no report here (model {:?})", self.ch, ctrl, val, g, s.m))),
+                (None, Some(w)) => v.push(self.vio("missing-report", cls, || format!("feed(CC ch{} #{} ={}) reported nothing; expected {:?} (model {:?})", self.ch, ctrl, val, w, s.m))),
                 (Some(g), Some(w)) => {
                     if g != w {
-                        v.push(self.vio("wrong-content", cls, format!("feed(CC ch{} #{} ={}) reported {:?}; expected {:?} (model {:?})", self.ch, ctrl, val, g, w, s.m)));
+                        v.push(self.vio("wrong-content", cls, || format!("feed(CC ch{} #{} ={}) reported {:?}; expected {:?} (model {:?})", self.ch, ctrl, val, g, w, s.m)));
                     }
                 }
             }
@@ -331,12 +336,12 @@ impl<O: PlainOracle> PlainSys<O> {
             let mut copy = s.sc;
             let out2 = copy.feed_msg(&msg);
             if out2 != out || copy != sc {
-                v.push(self.vio("copy-evolves-identically", "feed", format!("feeding CC #{} ={} to two copies of the same scanner gave {:?} / {:?}, states equal: {}", ctrl, val, out, out2, copy == sc)));
+                v.push(self.vio("copy-evolves-identically", "feed", || format!("feeding CC #{} ={} to two copies of the same scanner gave {:?} / {:?}, states equal: {}", ctrl, val, out, out2, copy == sc)));
             }
         }
         if self.report.repr {
             if let Some(d) = repr_divergence(&s.sc, &sc, &out, 0xB0 | self.ch, ctrl, val) {
-                v.push(self.vio("representation-matters", O::class_of_ctrl(ctrl), format!("CC ch{} #{} ={}: {}", self.ch, ctrl, val, d)));
+                v.push(self.vio("representation-matters", O::class_of_ctrl(ctrl), || format!("CC ch{} #{} ={}: {}", self.ch, ctrl, val, d)));
             }
         }
         Step {
@@ -375,6 +380,9 @@ impl<O: PlainOracle> System for PlainSys<O> {
             out.push(PAct::Reset);
             out.push(PAct::ResetProbe);
         }
+        for i in 0..self.others.len() {
+            out.push(PAct::Other(i as u32));
+        }
         for &(c, v) in &self.probes {
             out.push(PAct::CcProbe(c, v));
         }
@@ -386,6 +394,33 @@ impl<O: PlainOracle> System for PlainSys<O> {
         match a {
             PAct::Cc(c, v) => self.do_cc(s, *c, *v, true),
             PAct::CcProbe(c, v) => self.do_cc(s, *c, *v, false),
+            PAct::Other(i) => {
+                // a non-contributing message as ordinary traffic: the statement justifies no
+                // report; whatever the real scanner does to its state is followed
+                let (st, d1, d2) = self.others[*i as usize];
+                let mut sc = s.sc;
+                let out = sc.feed_msg(&raw(st, d1, d2));
+                let mut v = Vec::new();
+                if st & 0xF0 == 0xB0 && (out[0].is_some() || sc != s.sc) {
+                    self.reacted[d1 as usize].store(true, Ordering::Relaxed);
+                }
+                if self.report.oracle && (out[0].is_some() || out[1].is_some()) {
+                    v.push(self.vio("unjustified-report", "non-contributing-message", || format!("feed(({:#04X},{},{})) reported {:?}; the statement justifies no report for this input", st, d1, d2, out)));
+                }
+                if self.report.dup {
+                    let mut copy = s.sc;
+                    let out2 = copy.feed_msg(&raw(st, d1, d2));
+                    if out2 != out || copy != sc {
+                        v.push(self.vio("copy-evolves-identically", "feed-other", || format!("feeding ({:#04X},{},{}) to two copies gave different results", st, d1, d2)));
+                    }
+                }
+                if self.report.repr {
+                    if let Some(d) = repr_divergence(&s.sc, &sc, &out, st, d1, d2) {
+                        v.push(self.vio("representation-matters", "non-contributing", || format!("({:#04X},{},{}): {}", st, d1, d2, d)));
+                    }
+                }
+                Step { next: Some(PState { sc, m: s.m.clone() }), obs: 0, violations: v }
+            }
             PAct::Transparent(i) => {
                 let (st, d1, d2) = self.noncontrib[*i as usize];
                 let mut sc = s.sc;
@@ -397,15 +432,15 @@ impl<O: PlainOracle> System for PlainSys<O> {
                 if self.report.transparency {
                     let cls = if st & 0xF0 == 0xB0 { format!("CC#{}", d1) } else { format!("status{:X}", if st < 0xF0 { st & 0xF0 } else { st }) };
                     if out[0].is_some() || out[1].is_some() {
-                        v.push(self.vio("non-contributing-reports", &cls, format!("non-contributing message ({:#04X},{},{}) made the scanner report {:?}", st, d1, d2, out)));
+                        v.push(self.vio("non-contributing-reports", &cls, || format!("non-contributing message ({:#04X},{},{}) made the scanner report {:?}", st, d1, d2, out)));
                     }
                     if sc != s.sc {
-                        v.push(self.vio("non-contributing-changes-state", &cls, format!("non-contributing message ({:#04X},{},{}) left the scanner in a different state: {:?} -> {:?}", st, d1, d2, s.sc, sc)));
+                        v.push(self.vio("non-contributing-changes-state", &cls, || format!("non-contributing message ({:#04X},{},{}) left the scanner in a different state: {:?} -> {:?}", st, d1, d2, s.sc, sc)));
                     }
                 }
                 if self.report.repr {
                     if let Some(d) = repr_divergence(&s.sc, &sc, &out, st, d1, d2) {
-                        v.push(self.vio("representation-matters", "non-contributing", format!("({:#04X},{},{}): {}", st, d1, d2, d)));
+                        v.push(self.vio("representation-matters", "non-contributing", || format!("({:#04X},{},{}): {}", st, d1, d2, d)));
                     }
                 }
                 Step { next: None, obs: 0, violations: v }
@@ -426,12 +461,12 @@ impl<O: PlainOracle> System for PlainSys<O> {
                     sc.reset_all();
                     let fresh = <O::Sc as Default>::default();
                     if sc != fresh {
-                        v.push(self.vio("reset-equals-new", "reset", format!("after reset() the scanner is {:?}, a new one is {:?}", sc, fresh)));
+                        v.push(self.vio("reset-equals-new", "reset", || format!("after reset() the scanner is {:?}, a new one is {:?}", sc, fresh)));
                     }
                     let mut again = s.sc;
                     again.reset_all();
                     if again != sc {
-                        v.push(self.vio("copy-evolves-identically", "reset", "resetting two copies gave different states".to_string()));
+                        v.push(self.vio("copy-evolves-identically", "reset", || "resetting two copies gave different states".to_string()));
                     }
                 }
                 Step { next: None, obs: 0, violations: v }
@@ -445,10 +480,10 @@ impl<O: PlainOracle> System for PlainSys<O> {
         a.sc == b.sc
     }
     fn n_classes(&self) -> usize {
-        5
+        6
     }
     fn class_name(&self, i: usize) -> String {
-        ["feed-contributing-cc", "feed-cc-probe(concretisation)", "feed-must-be-transparent", "reset", "reset-probe"][i].to_string()
+        ["feed-contributing-cc", "feed-cc-probe(concretisation)", "feed-must-be-transparent", "reset", "reset-probe", "feed-non-contributing(expanded)"][i].to_string()
     }
     fn class_of(&self, a: &PAct) -> usize {
         match a {
@@ -457,12 +492,17 @@ impl<O: PlainOracle> System for PlainSys<O> {
             PAct::Transparent(..) => 2,
             PAct::Reset => 3,
             PAct::ResetProbe => 4,
+            PAct::Other(..) => 5,
         }
     }
     fn render(&self, a: &PAct) -> String {
         match a {
             PAct::Cc(c, v) => format!("cc:{}:{}:{}", self.ch, c, v),
             PAct::CcProbe(c, v) => format!("ccprobe:{}:{}:{}", self.ch, c, v),
+            PAct::Other(i) => {
+                let (s, a, b) = self.others[*i as usize];
+                format!("raw:{}:{}:{}", s, a, b)
+            }
             PAct::Transparent(i) => {
                 let (s, a, b) = self.noncontrib[*i as usize];
                 format!("transparent:{}:{}:{}", s, a, b)
@@ -479,6 +519,10 @@ impl<O: PlainOracle> System for PlainSys<O> {
             PAct::Cc(c, v) | PAct::CcProbe(c, v) => format!("println!(\"{{:?}}\", scanner.feed(&helgoboss_midi::test_util::control_change({}, {}, {})));", self.ch, c, v),
             PAct::Transparent(i) => {
                 let (s, a, b) = self.noncontrib[*i as usize];
+                format!("println!(\"{{:?}}\", scanner.feed(&helgoboss_midi::test_util::short({}, {}, {})));", s, a, b)
+            }
+            PAct::Other(i) => {
+                let (s, a, b) = self.others[*i as usize];
                 format!("println!(\"{{:?}}\", scanner.feed(&helgoboss_midi::test_util::short({}, {}, {})));", s, a, b)
             }
             PAct::Reset | PAct::ResetProbe => "scanner.reset();".to_string(),
